@@ -230,25 +230,27 @@ def take (s : St) (id n : Nat) : St :=
 /-- The per-watcher body of `dispatch_to_map`. Returns the watcher and whether it is dead. -/
 def deliver (bufSize : Nat) (w : Watcher) (e : PEv) : Watcher × Bool :=
   if w.closed then (w, true)       -- try_send fails with Closed (whichever branch): silent cleanup
+  else if bufSize + 1 - w.chan.length ≤ 1 then      -- `sender.capacity() <= 1`
+    if bufSize + 1 - w.chan.length = 1 then
+      ({ w with chan := w.chan ++ [cancelEv e.key], hist := w.hist ++ [cancelEv e.key] }, true)
+    else (w, true)
   else
-    let avail := bufSize + 1 - w.chan.length
-    if avail ≤ 1 then
-      if avail == 1 then
-        ({ w with chan := w.chan ++ [cancelEv e.key], hist := w.hist ++ [cancelEv e.key] }, true)
-      else (w, true)
-    else
-      ({ w with chan := w.chan ++ [toW w.prevKv e], hist := w.hist ++ [toW w.prevKv e] }, false)
+    ({ w with chan := w.chan ++ [toW w.prevKv e], hist := w.hist ++ [toW w.prevKv e] }, false)
+
+/-- `deliver` plus the `dead_watchers` → `registry.unregister` bookkeeping for that watcher. -/
+def hit (bufSize : Nat) (e : PEv) (w : Watcher) : Watcher :=
+  if (deliver bufSize w e).2 then { (deliver bufSize w e).1 with registered := false } else (deliver bufSize w e).1
+
+/-- What `dispatch_to_map(map, lookup, e)` does to one watcher: only those registered under `lookup` in
+    that map are visited. -/
+def pass (bufSize : Nat) (isPrefix : Bool) (lookup : Key) (e : PEv) (w : Watcher) : Watcher :=
+  if w.registered && w.isPrefix == isPrefix && w.key == lookup then hit bufSize e w else w
 
 /-- `dispatch_to_map(map, lookup_key, event)`: every watcher registered under `lookup_key` in that map. -/
 def dispatchToMap (s : St) (isPrefix : Bool) (lookup : Key) (e : PEv) : St :=
-  let ws := s.watchers.map (fun w =>
-    if w.registered && w.isPrefix == isPrefix && w.key == lookup then
-      let (w', dead) := deliver s.bufSize w e
-      if dead then { w' with registered := false } else w'
-    else w)
   let died := (s.watchers.filter (fun w => w.registered && w.isPrefix == isPrefix && w.key == lookup &&
                   (deliver s.bufSize w e).2)).length
-  { s with watchers := ws, total := s.total - died }
+  { s with watchers := s.watchers.map (pass s.bufSize isPrefix lookup e), total := s.total - died }
 
 def dispatchEvent (s : St) (e : PEv) : St :=
   (prefixSegments e.key).foldl (fun s p => dispatchToMap s true p e) (dispatchToMap s false e.key e)
@@ -327,6 +329,9 @@ def progressOk : Nat → List WEv → Bool
     if e.typ == .progress then (hi ≤ e.rev) && progressOk hi rest
     else if isData e then progressOk (max hi e.rev) rest
     else progressOk hi rest
+
+/-- prev values are not part of C24: the monitor compares streams with `prev` erased. -/
+def erasePrev (e : WEv) : WEv := { e with prev := none }
 
 /-- `stream` = everything the consumer received. `evs` = all broadcast events from the earliest point the
     watcher may see (events not yet dispatched when it registered) — `must` = how many of the leading ones
